@@ -250,7 +250,7 @@ func splitFlagsFromArgs(all []string) (flags, args []string) {
 		if !strings.HasPrefix(arg, "-") {
 			return all[:i:i], all[i:]
 		}
-		if booleanFlags[arg] || strings.Contains(arg, "=") {
+		if flagIsComplete(arg) {
 			// Either "-bool" or "-name=value".
 			continue
 		}
@@ -258,6 +258,17 @@ func splitFlagsFromArgs(all []string) (flags, args []string) {
 		i++
 	}
 	return all, nil
+}
+
+// flagIsComplete reports whether a flag argument stands on its own,
+// being either "-bool" or "-name=value", as opposed to "-name value".
+// Like the go command, "--name" is accepted as a spelling of "-name".
+func flagIsComplete(arg string) bool {
+	name := arg
+	if strings.HasPrefix(name, "--") {
+		name = name[1:] // "--name" to "-name"
+	}
+	return booleanFlags[name] || strings.Contains(arg, "=")
 }
 
 func alterTrimpath(flags []string) []string {
